@@ -53,7 +53,7 @@ def strategy():
         'pas': st.lists(st.floats(0, 360), min_size=2, max_size=4),
         'wcs': W.wcs_specs(projs=('TAN', 'SIN'), frames=('icrs', 'fk5',
                                                          'galactic'),
-                           scale=(1e-5, 1e-2), parities=(-1,)),
+                           scale=(1e-5, 1e-2), parities=(-1,), past=False),
         # the WCS OBJECT has a past: it is first used in another state
         # (rotation, scale, reference point) and then edited in place
         'pre': st.one_of(st.none(), st.fixed_dictionaries({
@@ -133,6 +133,8 @@ class Image(Relation):
             wcs.wcs.cd = target.wcs.cd
             wcs.wcs.crval = target.wcs.crval
             wcs.wcs.crpix = target.wcs.crpix
+            wcs.wcs.lonpole = target.wcs.lonpole
+            wcs.wcs.latpole = target.wcs.latpole
             ctx.label('wcs:edited-in-place')
         # the conversion is a pure function of (region, wcs): converting the
         # same region again gives the same image, and the region is untouched
